@@ -208,7 +208,7 @@ def check_data_offset_in(mir_text, src):
         if e.stack[0].locals.get("EFF", ()):
             pass
     return [dict(function=names[0], paths=n, ok_paths=n, id="L0",
-                 text="Options::data_offset_in(reserved, unify) = unify ? align8(reserved) + 8 + size_of(Header) : reserved + 1 (reserved <= 2^20)",
+                 text="Options::data_offset_in(reserved, unify) = unify ? align8(reserved) + 8 + size_of(Header) : reserved + 1 (reserved <= 2^32 - 256)",
                  holds=not viol and n > 0, witnesses=viol[:2], vacuous=(n == 0))]
 
 
@@ -247,7 +247,7 @@ def check_capacity_fn(mir_text, src):
             if not ok2:
                 viol.append({"why": "check_capacity returns a header offset other than align8(reserved)+8 (unified) / reserved+1 (plain)"})
     return [dict(function=names[0], paths=n, ok_paths=n, id="L3",
-                 text="check_capacity(reserved, unify, capacity): Err iff the prefix (align8(reserved)+8+size_of(Header) unified, reserved+1 plain) exceeds the capacity, else the header offset (reserved <= 2^20, capacity <= u32::MAX)",
+                 text="check_capacity(reserved, unify, capacity): Err iff the prefix (align8(reserved)+8+size_of(Header) unified, reserved+1 plain) exceeds the capacity, else the header offset (reserved <= 2^32 - 256, capacity <= u32::MAX)",
                  holds=not viol and n > 0, witnesses=viol[:2], vacuous=(n < 2))]
 
 
